@@ -8,8 +8,10 @@ package script
 import (
 	"fmt"
 	"hash/fnv"
+	"runtime"
 	"strings"
 	"sync"
+	"sync/atomic"
 	"time"
 
 	"github.com/rminnich/go9p"
@@ -20,13 +22,15 @@ import (
 
 // Behav is what the case wants the implementation to do with one request.
 type Behav struct {
-	Hold  bool   `json:"hold,omitempty"`  // park inside the implementation until Release(key)
-	Err   string `json:"err,omitempty"`   // answer Rerror with this text
-	Ecode uint32 `json:"ecode,omitempty"` // ... and this number
-	Async bool   `json:"async,omitempty"` // answer from another goroutine after the op has returned
-	Dup   bool   `json:"dup,omitempty"`   // a second bare Respond() after the answer
-	Size  int    `json:"size,omitempty"`  // answer size knob (stat name length, error text length, read bytes)
-	NoQid int    `json:"noqid,omitempty"` // Walk: answer only this many qids (+1), i.e. NoQid-1 qids; 0 = by name convention
+	Hold        bool   `json:"hold,omitempty"`        // park inside the implementation until Release(key)
+	Err         string `json:"err,omitempty"`         // answer Rerror with this text
+	Ecode       uint32 `json:"ecode,omitempty"`       // ... and this number
+	Async       bool   `json:"async,omitempty"`       // answer from another goroutine after the op has returned
+	Dup         bool   `json:"dup,omitempty"`         // a second bare Respond() after the answer
+	DupRace     bool   `json:"duprace,omitempty"`     // the answer is packed, then two goroutines call Respond() at the same instant
+	HoldDestroy bool   `json:"holddestroy,omitempty"` // the FidDestroy of this request\'s fid blocks until Release(key)
+	Size        int    `json:"size,omitempty"`        // answer size knob (stat name length, error text length, read bytes)
+	NoQid       int    `json:"noqid,omitempty"`       // Walk: answer only this many qids (+1), i.e. NoQid-1 qids; 0 = by name convention
 }
 
 // Entry is one line of the implementation's log.
@@ -52,6 +56,9 @@ type Entry struct {
 type FidAux struct {
 	Inc  int
 	Conn string
+	// DestroyGate, if set, makes FidDestroy of this fid wait (an implementation
+	// that is slow releasing its per-fid resources)
+	DestroyGate chan struct{}
 }
 
 const (
@@ -110,7 +117,7 @@ func Key(m *ref9p.Msg) string {
 func (s *S) Set(key string, b Behav) {
 	s.mu.Lock()
 	s.behav[key] = b
-	if b.Hold {
+	if b.Hold || b.HoldDestroy {
 		if _, ok := s.gates[key]; !ok {
 			s.gates[key] = make(chan struct{})
 		}
@@ -386,6 +393,13 @@ func (s *S) op(name string, req *go9p.SrvReq) {
 		close(ent) // under s.mu: two requests with the same key may enter at once
 	}
 	s.mu.Unlock()
+	if b.HoldDestroy && gate != nil && req.Fid != nil {
+		req.Fid.Lock()
+		if a, ok := req.Fid.Aux.(*FidAux); ok {
+			a.DestroyGate = gate
+		}
+		req.Fid.Unlock()
+	}
 	returned := make(chan struct{})
 	defer func() {
 		s.add(Entry{Kind: "exit", Op: name, Conn: req.Conn.Id, Key: key, Tag: req.Tc.Tag})
@@ -404,7 +418,32 @@ func (s *S) op(name string, req *go9p.SrvReq) {
 		s.inside[key]--
 		s.mu.Unlock()
 		s.add(Entry{Kind: "answer", Op: name, Conn: req.Conn.Id, Key: key, Tag: req.Tc.Tag, Answer: a, Msg: m, Dotu: dotu})
-		s.respond(req, a)
+		if b.DupRace && conv.Pack(req.Rc, a, dotu) == nil {
+			// two completion paths answering at the same instant (e.g. a result
+			// racing a timeout): released together by a spin barrier
+			var ready, go_ int32
+			var wg sync.WaitGroup
+			for i := 0; i < 2; i++ {
+				wg.Add(1)
+				go func() {
+					defer wg.Done()
+					atomic.AddInt32(&ready, 1)
+					for n := 0; atomic.LoadInt32(&go_) == 0; n++ {
+						if n > 2000 {
+							runtime.Gosched()
+						}
+					}
+					req.Respond()
+				}()
+			}
+			for atomic.LoadInt32(&ready) < 2 {
+				runtime.Gosched()
+			}
+			atomic.StoreInt32(&go_, 1)
+			wg.Wait()
+		} else {
+			s.respond(req, a)
+		}
 		if b.Dup {
 			req.Respond()
 		}
@@ -436,11 +475,16 @@ func (s *S) Wstat(r *go9p.SrvReq)  { s.op("Wstat", r) }
 func (s *S) FidDestroy(f *go9p.SrvFid) {
 	inc := 0
 	conn := ""
+	var gate chan struct{}
 	f.Lock()
 	if a, ok := f.Aux.(*FidAux); ok {
-		inc, conn = a.Inc, a.Conn
+		inc, conn, gate = a.Inc, a.Conn, a.DestroyGate
 	}
 	f.Unlock()
+	if gate != nil {
+		s.add(Entry{Kind: "fiddestroy-enter", Inc: inc, Conn: conn})
+		<-gate
+	}
 	s.add(Entry{Kind: "fiddestroy", Inc: inc, Conn: conn})
 }
 
